@@ -834,9 +834,80 @@ void ref_range_one(
   }
 }
 
+// A range object that outlives a change of its grid's size: the range refers to the grid, so what it pairs with a
+// position is the grid's CURRENT cell at that position (as long as the range still lies inside the grid).
+template <std::size_t N>
+void ref_range_after_reassign()
+{
+  std::string const e = "pos_ref_range-after-reassign/N=" + std::to_string(N);
+  if (!vf::entry_enabled(e))
+    return;
+  vf::set_entry(e);
+  using G = fg::object<cell, N>;
+  for (P<N> const &s1 : box<N>(all<N>(1), all<N>(4)))
+    for (P<N> const &grow : box<N>(all<N>(0), all<N>(3)))
+    {
+      if (!my_item())
+        continue;
+      P<N> s2 = s1;
+      bool differs = false;
+      for (std::size_t i = 0; i < N; ++i)
+      {
+        s2[i] += grow[i];
+        differs = differs || grow[i] != 0;
+      }
+      if (!differs)
+        continue;
+      if (!vf::begin_case("size %s, ranges made, grid assigned size %s, ranges iterated", show(s1).c_str(), show(s2).c_str()))
+        continue;
+      vf::note_distinct(hp(s1, hp(s2, vf::hash_str(e))));
+      auto og = make_grid<N>(s1, tag_a);
+      auto og2 = make_grid<N>(s2, tag_a);
+      if (!og.has_value() || !og2.has_value())
+        continue;
+      G &g = og.get_unsafe();
+      fg::min<std::size_t, N> const lmin{to_pos<std::size_t, N>(all<N>(0))};
+      fg::sup<std::size_t, N> const lsup{to_pos<std::size_t, N>(s1)};
+      auto const whole = fg::make_pos_ref_range(g);
+      auto const sub = fg::make_pos_ref_range_start_end(g, lmin, lsup);
+      auto const csub = fg::make_pos_ref_crange_start_end(static_cast<G const &>(g), lmin, lsup);
+      g = std::move(og2.get_unsafe());
+      auto judge = [&](auto const &range, char const *which, bool whole_grid) {
+        std::size_t n = 0;
+        for (auto it = range.begin(); it != range.end() && n < 2000; ++it, ++n)
+        {
+          auto const ref = *it;
+          P<N> const p = from_vec<N>(ref.pos());
+          bool inside_new = true;
+          for (std::size_t i = 0; i < N; ++i)
+            inside_new = inside_new && p[i] >= 0 && p[i] < s2[i];
+          if (!inside_new)
+          {
+            vf::violation(e + "/" + which + "/position-outside-grid", "mismatch", "position " + show(p));
+            return;
+          }
+          cell const *const want = &g.get_unsafe(to_pos<std::size_t, N>(p));
+          if (&ref.value() != want || ref.value().code != code<N>(p))
+          {
+            vf::violation(e + "/" + which + "/stale-cell", "mismatch",
+                          "after the grid was assigned size " + show(s2) + " the range made for size " + show(s1) + " pairs position " + show(p) + " with another cell");
+            return;
+          }
+        }
+        (void)whole_grid;
+        VF_COUNT("ref_range/iterated-after-grid-reassigned");
+      };
+      vf::add_evals(2);
+      judge(sub, "start_end", false);
+      judge(csub, "const_start_end", false);
+      judge(whole, "whole", true);
+    }
+}
+
 template <std::size_t N>
 void pos_ref_range_entry()
 {
+  ref_range_after_reassign<N>();
   std::string const e = "pos_ref_range/N=" + std::to_string(N);
   if (!vf::entry_enabled(e))
     return;
